@@ -54,32 +54,32 @@ type funcReport struct {
 }
 
 type checkCtx struct {
-	prop      string
-	tier      string
-	seed      int
-	w         *World
-	workDir   string
-	timeoutS  int
-	known     []KnownFinding
-	ledger    *Ledger
-	verifDir  string
-	samples   []sample
-	funcs     []funcReport
-	trusted   map[string]bool
-	unmod     map[string]bool
-	notes     map[string]bool
-	undecided []string
-	viol      []string
-	knownSeen []string
-	byBackend map[string]int
-	solverS   float64
-	nObl      int
-	nDis      int
-	vacuity   []string
-	bounded   []map[string]interface{}
-	missing   []string
+	prop             string
+	tier             string
+	seed             int
+	w                *World
+	workDir          string
+	timeoutS         int
+	known            []KnownFinding
+	ledger           *Ledger
+	verifDir         string
+	samples          []sample
+	funcs            []funcReport
+	trusted          map[string]bool
+	unmod            map[string]bool
+	notes            map[string]bool
+	undecided        []string
+	viol             []string
+	knownSeen        []string
+	byBackend        map[string]int
+	solverS          float64
+	nObl             int
+	nDis             int
+	vacuity          []string
+	bounded          []map[string]interface{}
+	missing          []string
 	extraAssumptions []string
-	knownObls []string
+	knownObls        []string
 }
 
 func cmdCheck(args []string) {
@@ -125,6 +125,13 @@ func cmdCheck(args []string) {
 	}
 	sort.Strings(names)
 	for _, name := range names {
+		if is := w.insts[name]; len(is) > 0 {
+			sort.Slice(is, func(i, j int) bool { return is[i].String() < is[j].String() })
+			for _, f := range is {
+				cc.verifyFn(name+"["+shortInst(f)+"]", f)
+			}
+			continue
+		}
 		cc.verifyOne(name)
 	}
 	cc.runTables()
@@ -246,9 +253,24 @@ func (cc *checkCtx) knownFor(obl string) *KnownFinding {
 	return nil
 }
 
+func shortInst(f *ssa.Function) string {
+	n := f.Name()
+	if i := strings.Index(n, "["); i >= 0 {
+		n = n[i+1:]
+		n = strings.TrimSuffix(n, "]")
+	}
+	if i := strings.LastIndex(n, "."); i >= 0 {
+		n = "*" + n[i+1:]
+	}
+	return n
+}
+
 func (cc *checkCtx) verifyOne(name string) {
+	cc.verifyFn(name, cc.w.funcs[name])
+}
+
+func (cc *checkCtx) verifyFn(name string, fn *ssa.Function) {
 	w := cc.w
-	fn := w.funcs[name]
 	rep := funcReport{Function: name}
 	if fn == nil {
 		rep.Status = "missing"
@@ -466,23 +488,23 @@ func (cc *checkCtx) writeEvidence(wall float64, status string) {
 	}
 	level := "proof"
 	cov := map[string]interface{}{
-		"obligations":              cc.nObl,
-		"discharged":               cc.nDis,
-		"checker_cmd":              fmt.Sprintf("/verif/bin/gvc check --prop %s --tier %s  (go/ssa weakest-precondition style VC generation; z3 4.8.12, z3 5.1.0 (z3-new), cvc5 1.0 raced per obligation)", cc.prop, cc.tier),
-		"trusted_base":             append(keys(cc.trusted), cc.extraAssumptions...),
-		"functions_under_contract": cc.funcs,
-		"by_backend":               cc.byBackend,
-		"solver_time_s":            round3(cc.solverS),
-		"samples":                  samples,
-		"unmodelled_calls":         keys(cc.unmod),
-		"notes":                    keys(cc.notes),
-		"undecided":                cc.undecided,
-		"known_findings_seen":      cc.knownSeen,
+		"obligations":                           cc.nObl,
+		"discharged":                            cc.nDis,
+		"checker_cmd":                           fmt.Sprintf("/verif/bin/gvc check --prop %s --tier %s  (go/ssa weakest-precondition style VC generation; z3 4.8.12, z3 5.1.0 (z3-new), cvc5 1.0 raced per obligation)", cc.prop, cc.tier),
+		"trusted_base":                          append(keys(cc.trusted), cc.extraAssumptions...),
+		"functions_under_contract":              cc.funcs,
+		"by_backend":                            cc.byBackend,
+		"solver_time_s":                         round3(cc.solverS),
+		"samples":                               samples,
+		"unmodelled_calls":                      keys(cc.unmod),
+		"notes":                                 keys(cc.notes),
+		"undecided":                             cc.undecided,
+		"known_findings_seen":                   cc.knownSeen,
 		"known_finding_obligations_not_counted": cc.knownObls,
-		"vacuity":                  cc.vacuity,
-		"bounded":                  cc.bounded,
-		"missing_obligations":      cc.missing,
-		"status":                   status,
+		"vacuity":                               cc.vacuity,
+		"bounded":                               cc.bounded,
+		"missing_obligations":                   cc.missing,
+		"status":                                status,
 		"extraction_drops": []string{
 			"go statements, select and channel operations put a function outside the subset",
 			"float64 is modelled as mathematical Real",
